@@ -68,7 +68,7 @@ def witness_scens(ctx, producers=("simple", "erroring"), repeat=6):
         for g in GOALS:
             cfgtxt = ("SPECIFICATION Spec\nCONSTANTS Stoppers = {\"s1\", \"s2\"}\n Clients = {\"c1\", \"c2\"}\n ProducerKind = \"%s\"\n MaxBlocks = 2\n"
                       " MaxRuns = 2\n StartMayFail = {}\n RPCLayer = TRUE\n StaleFlag = FALSE\n DoubleSend = FALSE\n SharedWaitGroup = FALSE\n"
-                      " Replayable = TRUE\n WriteClients = {\"c1\"}\n WritingOutlivesRun = FALSE\n MaxPolls = 1\n PollOnce = FALSE\nINVARIANTS %s\nCHECK_DEADLOCK FALSE\n" % (prod, g))
+                      " Replayable = TRUE\n WriteClients = {\"c1\"}\n WritingOutlivesRun = FALSE\n StopCheckThenAct = FALSE\n MaxPolls = 1\n PollOnce = FALSE\nINVARIANTS %s\nCHECK_DEADLOCK FALSE\n" % (prod, g))
             r = vlib.run_tlc(ctx, "Lifecycle", "Blank.cfg", workers=8, extra_files={"Blank.cfg": cfgtxt}, timeout=600)
             if r.violated:
                 steps = [obs_from_state(st) for st in r.error_trace if "act" in st]
